@@ -1,12 +1,76 @@
+// Command colvet decides structural necessary conditions of the properties in
+// /verif/properties.jsonl from the source of /repo. See /verif/DESIGN.md.
 package main
 
 import (
+	"encoding/json"
+	"flag"
 	"fmt"
+	"os"
+	"path/filepath"
+	"runtime/debug"
+	"time"
 
-	_ "golang.org/x/tools/go/callgraph/cha"
-	_ "golang.org/x/tools/go/callgraph/vta"
-	_ "golang.org/x/tools/go/packages"
-	_ "golang.org/x/tools/go/ssa/ssautil"
+	"verif/colvet"
 )
 
-func main() { fmt.Println("ok") }
+func main() {
+	property := flag.String("property", "", "property id (C01…C19) or 'all'")
+	tier := flag.String("tier", "", "quick | thorough (default: $VERIF_TIER or quick)")
+	repo := flag.String("repo", "/repo", "repository working tree to analyse")
+	verif := flag.String("verif", "", "verification directory (default: directory above the binary)")
+	replay := flag.String("replay", "", "replay file written by an earlier violation")
+	dump := flag.String("dump", "", "debug: lockset | funcs | arms | units")
+	filter := flag.String("filter", "", "debug: substring filter for -dump")
+	flag.Parse()
+
+	if *verif == "" {
+		exe, _ := os.Executable()
+		*verif = filepath.Dir(filepath.Dir(exe))
+		if _, err := os.Stat(filepath.Join(*verif, "properties.jsonl")); err != nil {
+			*verif = "/verif"
+		}
+	}
+	if *tier == "" {
+		*tier = os.Getenv("VERIF_TIER")
+	}
+	if *tier != "thorough" {
+		*tier = "quick"
+	}
+	onlyKey := ""
+	if *replay != "" {
+		b, err := os.ReadFile(*replay)
+		if err != nil {
+			fmt.Fprintln(os.Stderr, "colvet:", err)
+			os.Exit(2)
+		}
+		var rf struct{ Property, Key string }
+		if err := json.Unmarshal(b, &rf); err != nil {
+			fmt.Fprintln(os.Stderr, "colvet:", err)
+			os.Exit(2)
+		}
+		*property, onlyKey = rf.Property, rf.Key
+	}
+
+	defer func() {
+		if r := recover(); r != nil {
+			fmt.Fprintf(os.Stderr, "colvet: internal error (the checker cannot vouch for anything): %v\n%s", r, debug.Stack())
+			os.Exit(2)
+		}
+	}()
+
+	if *dump != "" {
+		p, err := colvet.Load(*repo, "")
+		if err != nil {
+			fmt.Fprintln(os.Stderr, "colvet:", err)
+			os.Exit(2)
+		}
+		colvet.Dump(p, *dump, *filter)
+		return
+	}
+	if *property == "" {
+		flag.Usage()
+		os.Exit(2)
+	}
+	os.Exit(colvet.Main(*repo, *verif, *property, *tier, onlyKey, time.Now()))
+}
